@@ -135,6 +135,11 @@ func sweep(x *mon.Ctx, sel int) {
 	{
 		var keep []*entry
 		for _, e := range es {
+			if e.kinds != nil && strings.HasPrefix(x.Variant, "race") {
+				// the key-kind product runs the standard library's NIST and RSA verifiers, 10 times slower under the race
+				// detector; the race variant is there for checkptr on the library's assembly-backed paths
+				continue
+			}
 			if (sel == selTiers && e.tier && !e.signed) || (sel == selPlain && !e.signed) || (sel == selSigned && e.signed) {
 				keep = append(keep, e)
 			}
@@ -183,7 +188,7 @@ func sweep(x *mon.Ctx, sel int) {
 			c.End()
 		}
 		for _, kind := range []int{kTiny, kCross} {
-			if tiersOnly || e.signed {
+			if tiersOnly || e.signed || !e.wants(kind) {
 				break // tiny inputs, type confusion and OID edits never reach the tier-dependent primitive: left to c13.sweep
 			}
 			n := positions(kind, nil, w)
@@ -206,14 +211,17 @@ func sweep(x *mon.Ctx, sel int) {
 			a := w.get(sn)
 			if os.Getenv("C13_PROFILE") != "" {
 				var ps []string
-				for kind := kTrunc; kind <= kText; kind++ {
+				for kind := kTrunc; kind <= kAlg; kind++ {
 					ps = append(ps, fmt.Sprintf("%s=%d", kindNames[kind], positions(kind, a, w)))
 				}
 				x.Note("positions entry=%s seed=%s len=%d: %s", e.name, sn, len(a.data), strings.Join(ps, " "))
 			}
-			for kind := kTrunc; kind <= kText; kind++ {
-				if tiersOnly && (kind == kOID || kind == kText) {
+			for kind := kTrunc; kind <= kAlg; kind++ {
+				if tiersOnly && (kind == kOID || kind == kText || kind == kAlg) {
 					continue
+				}
+				if !e.wants(kind) || kind == kAlg && e.signed {
+					continue // (a re-signed artefact would carry an SM2 signature under whatever identifier: the plain seeds cover the product)
 				}
 				if kind == kText && (!e.text && !e.signed || strings.HasPrefix(x.Variant, "race")) {
 					// the text-grammar mutator runs on the entry points that hand the bytes to the X.509 / CSR / CRL / PEM /
@@ -247,7 +255,7 @@ func sweep(x *mon.Ctx, sel int) {
 					c.End()
 				}
 			}
-			for k := 0; k < spliceCases && !e.signed; k++ {
+			for k := 0; k < spliceCases && !e.signed && e.wants(kSplice); k++ {
 				c := x.Begin("sweep entry=%s seed=%s(len %d) mutator=%s batch=%d of %d mutants drawn from the case PRNG", e.name, sn, len(a.data), kindNames[kSplice], k, spliceN)
 				if c == nil {
 					continue
